@@ -68,6 +68,10 @@ static const row ROWS[] = {
 	{ F_3BLK,           2, 0,  3,  0, 0,                    NOLIM, NOLIM, 0,    0,    0,     0,     1, 0, 0, 0, 2 },	// all Blocks supplied, then LZMA_RUN calls without input until everything decodable has arrived
 	{ F_2BLK,           2, 7,  1,  0, 0,                    NOLIM, NOLIM, 0,    0,    0,     0,     1, 0, 0, 0, 2 },
 	{ F_3BLK,           3, 7,  1,  0, 0,                    NOLIM, NOLIM, 0,    0,    0,     0,     1, 0, 0, 1, 2 },
+	{ F_2BLK,           2, 0,  0,  0, 0,                    NOLIM, NOLIM, 0,    0,    0,     0,     0, 0, 0, 0, 3 },	// output space exactly the size of the data; input cut at every offset with an input-less call at the cut
+	{ F_3BLK,           2, 0,  0,  0, 0,                    NOLIM, NOLIM, 0,    0,    0,     0,     0, 0, 0, 0, 3 },
+	{ F_EMPTY_MID,      2, 0,  0,  0, 0,                    NOLIM, NOLIM, 0,    0,    0,     0,     0, 0, 0, 0, 3 },
+	{ F_2BLK,           2, 0,  0,  0, 0,                    NOLIM, NOLIM, 0,    0,    0,     0,     1, 0, 0, 1, 3 },
 	{ F_BAD1_UNSIZED2,  2, 0,  0,  0, 0,                    NOLIM, NOLIM, 0,    0,    0,     0,     2, 0, 0, 0 },	// a damaged Block decoded by a worker, directly followed by a Block that must be decoded in direct mode
 	{ F_BAD1_UNSIZED2,  2, 5,  3,  0, 0,                    NOLIM, NOLIM, 0,    0,    0,     0,     1, 0, 0, 0 },
 	{ F_4TRUNC,         2, 0,  1,  0, 0,                    NOLIM, NOLIM, 0,    0,    0,     0,     1, 0, 0, 0 },	// four Blocks on two threads, output read one byte at a time, input ends inside the fourth (its worker was used before)
@@ -129,17 +133,19 @@ static int build_file(int kind) {
 // ---- one execution -------------------------------------------------------------------------------
 typedef struct { lzma_ret r; size_t tout, tin; uint64_t h; int calls; int probe_bad; long leaked; int premature; size_t drain_out; } obs;
 static unsigned char dec[65536 + 4096];
-static const row *R; static int cur_early, cur_reinit; static size_t st_drain_out;
+static const row *R; static int cur_early, cur_reinit, cur_cut; static size_t st_drain_out;
 
 static obs drive(lzma_stream *d, int mt) {
 	obs o = { 0, 0, 0, 0, 0, 0, 0, 0, 0 };
 	int draining = 0, drained = R->mode != 2; size_t feed_end = R->mode == 2 ? LAY.index_off : clen;
+	const size_t outlimit = R->mode == 3 ? plen : sizeof dec; int gap_done = 0;	// mode 3: exactly as much output space as the file holds data, input in two pieces [0,cut) [cut,end) with one call without input in between
 	size_t pos = 0, ocap = 0; lzma_ret r = LZMA_OK; d->next_out = dec; int stall = 0; uint64_t lp_in = 0, lp_out = 0; int raised = 0;
 	for (;;) {
 		if (!drained && d->avail_in == 0 && pos == feed_end) draining = 1;
 		if (drained && feed_end != clen) feed_end = clen;
-		if (!draining && d->avail_in == 0 && pos < feed_end) { size_t n = R->inchunk && feed_end - pos > (size_t)R->inchunk ? (size_t)R->inchunk : feed_end - pos; d->next_in = comp + pos; d->avail_in = n; pos += n; }
-		if (d->avail_out == 0 && ocap < sizeof dec) { size_t g = R->outchunk ? (size_t)R->outchunk : sizeof dec; if (g > sizeof dec - ocap) g = sizeof dec - ocap; d->avail_out = g; ocap += g; }
+		if (R->mode == 3 && d->avail_in == 0 && pos == (size_t)cur_cut && !gap_done) gap_done = 1;	/* this call gets no new input */
+		else if (!draining && d->avail_in == 0 && pos < feed_end) { size_t n = R->inchunk && feed_end - pos > (size_t)R->inchunk ? (size_t)R->inchunk : feed_end - pos; if (R->mode == 3 && pos < (size_t)cur_cut && pos + n > (size_t)cur_cut) n = (size_t)cur_cut - pos; d->next_in = comp + pos; d->avail_in = n; pos += n; }
+		if (d->avail_out == 0 && ocap < outlimit) { size_t g = R->outchunk ? (size_t)R->outchunk : outlimit; if (g > outlimit - ocap) g = outlimit - ocap; d->avail_out = g; ocap += g; }
 		size_t bi = d->avail_in, bo = d->avail_out;
 		r = lzma_code(d, pos == clen ? LZMA_FINISH : LZMA_RUN); o.calls++;
 		if (mt && R->probes) { uint64_t pi, po; lzma_get_progress(d, &pi, &po);
@@ -153,7 +159,7 @@ static obs drive(lzma_stream *d, int mt) {
 		if (mt && cur_reinit && o.calls == cur_reinit) { r = 78; break; }
 		if (r == LZMA_OK) { if (bi == d->avail_in && bo == d->avail_out) { if (++stall > 200) { r = 97; break; } } else stall = 0; if (o.calls > 100000) { r = 96; break; } continue; }
 		if (r == LZMA_MEMLIMIT_ERROR && R->raise && mt && raised < 3) { raised++; uint64_t need = lzma_memusage(d); if (lzma_memlimit_set(d, need) != LZMA_OK) { r = 66; break; } continue; }
-		if (r == LZMA_BUF_ERROR && ((d->avail_in == 0 && pos < clen) || (d->avail_out == 0 && ocap < sizeof dec))) continue;
+		if (r == LZMA_BUF_ERROR && ((d->avail_in == 0 && pos < clen) || (d->avail_out == 0 && ocap < outlimit))) continue;
 		break;
 	}
 	o.r = r; o.tout = d->total_out; o.tin = d->total_in; o.h = h_fnv(dec, d->total_out, 0);
@@ -222,7 +228,7 @@ static void body_checked(void) { H_CASE("c07_mtdec row=%s early=%d reinit=%d tru
 
 static void row_name(const row *r, int idx) {
 	snprintf(rowname, sizeof rowname, "%d:%s,thr=%d,in=%d,out=%d,to=%d,fl=%#x,mlt=%s,mls=%s%s%s%s", idx, FN[r->file], r->threads, r->inchunk, r->outchunk, r->timeout, r->flags,
-		r->mlt == NOLIM ? "inf" : r->mlt == 1 ? "1" : "small", r->mls == NOLIM ? "inf" : "1+raise", r->early ? ",early-end" : "", r->reinit ? ",reinit" : "", r->probes ? ",probes" : ""); if (r->mode) { size_t l = strlen(rowname); snprintf(rowname + l, sizeof rowname - l, "%s", r->mode == 1 ? ",trunc-sweep" : ",drain"); }
+		r->mlt == NOLIM ? "inf" : r->mlt == 1 ? "1" : "small", r->mls == NOLIM ? "inf" : "1+raise", r->early ? ",early-end" : "", r->reinit ? ",reinit" : "", r->probes ? ",probes" : ""); if (r->mode) { size_t l = strlen(rowname); snprintf(rowname + l, sizeof rowname - l, "%s", r->mode == 1 ? ",trunc-sweep" : r->mode == 3 ? ",exact-output+cut-sweep" : ",drain"); }
 }
 static int parse_schedule(const char *s) {	// "i:c i:c" -> vs_prefix; options counts unknown (-1 = do not check)
 	int maxi = -1; memset(vs_prefix, 0, sizeof(int) * VS_MAXPTS);
@@ -241,7 +247,7 @@ int main(int argc, char **argv) {
 	vs_allow_timeouts = R->timeout != 0;
 	if (!strcmp(argv[1], "replay")) {
 		cur_early = argc > 4 ? atoi(argv[4]) : 0; cur_reinit = argc > 5 ? atoi(argv[5]) : 0; vs_allow_spurious = R->bs > 0;
-		if (argc > 6 && atoi(argv[6]) > 0) { cur_trunc = atoi(argv[6]); clen = (size_t)cur_trunc; if (st_reference()) return 2; }
+		if (argc > 6 && atoi(argv[6]) > 0) { cur_trunc = atoi(argv[6]); if (R->mode == 3) cur_cut = cur_trunc; else clen = (size_t)cur_trunc; if (st_reference()) return 2; }
 		int n = parse_schedule(argc > 3 ? argv[3] : ""); for (int i = 0; i < n; i++) vs_prefix_nen[i] = -1;
 		// replay twice: identical observations required
 		obs a, b2; for (int k = 0; k < 2; k++) { vs_prefix_len = 0; /* choices applied through a permissive prefix */
@@ -260,9 +266,11 @@ int main(int argc, char **argv) {
 		cur_early = cur_reinit = 0; vs_prefix_len = 0; vs_begin(); body(); vs_end(); kmax = last.calls > kcap ? kcap : last.calls; }
 	int kmin = kmax ? 1 : 0;
 	if (R->mode == 1) { kmin = (int)LAY.off[1]; kmax = (int)(LAY.off[1] + LAY.total[1]) - 1; }
+	if (R->mode == 3) { kmin = 1; kmax = (int)clen - 1; }
 	for (int k = kmin; k <= kmax; k++) { if (k_from >= 0 && k < k_from) continue;
 		cur_early = R->early ? k : 0; cur_reinit = R->reinit ? k : 0;
 		if (R->mode == 1) { cur_trunc = k; clen = (size_t)k; if (st_reference()) return 2; }
+		if (R->mode == 3) { cur_trunc = cur_cut = k; if (st_reference()) return 2; }
 		vs_stats st; vs_explore(body_checked, &b, shard, nsh, &st, h_expired);
 		if (vs_dumped) { printf("CONTINUE k=%d\n", k); tot.executions += st.executions; tot.transitions += st.transitions; tot.points += st.points; if (st.max_points > tot.max_points) tot.max_points = st.max_points; break; }
 		tot.executions += st.executions; tot.transitions += st.transitions; tot.points += st.points; if (st.max_points > tot.max_points) tot.max_points = st.max_points; tot.switches += st.switches; tot.with_timeouts += st.with_timeouts; tot.incomplete |= st.incomplete;
